@@ -40,11 +40,26 @@ TAGS = ["PV1", "OUT1", "System State", "Run Time", "LateTag"]
 
 
 class FakeChannel:
-    def __init__(self, eid):
-        self.id = "chan-" + eid
+    """One websocket of an engine as the dispatcher sees it: `other.get_engine_id_async()` answers with the engine's id,
+    `close()` closes it. Every connection is its own object with its own id."""
+
+    def __init__(self, eid, n=0):
+        self.id = f"chan-{n}-{eid}"
+        self.engine_id = eid
+        self.closed = False
+        self.accepted = False
+        self.default_response_timeout = None
+        ch = self
+
+        class _Other:
+            async def get_engine_id_async(self):
+                from fastapi_websocket_rpc.schemas import RpcResponse
+                await asyncio.sleep(0.001)
+                return RpcResponse(result=ch.engine_id, result_type="str", call_id="c")
+        self.other = _Other()
 
     async def close(self):
-        pass
+        self.closed = True
 
 
 class FakeWebPush:
@@ -90,9 +105,12 @@ class World:
         self.engine_method_version: dict[str, int] = {}
         self.accepted_saves: list[tuple[str, int, int]] = []
         self.webpush = FakeWebPush()
+        self.live_channels: dict[str, FakeChannel] = {}     # harness truth: engine -> its open, accepted websocket
+        self.n_channels = 0
         self.new_aggregator()
 
     def new_aggregator(self):
+        self.live_channels = {}          # every socket of the old process is gone
         self.dispatcher = SimAggregatorDispatcher(self)
         self.publisher = FrontendPublisher()
         self.aggregator = Aggregator(self.dispatcher, self.publisher, self.webpush)   # type: ignore
@@ -415,6 +433,15 @@ class SimA(Simulator):
                 await self._deliver(w, h)
             return r
 
+        async def closed(ch, step):
+            # the endpoint reports a closed websocket to the dispatcher; an exception there is the dispatcher's, not the
+            # harness's
+            try:
+                await w.dispatcher.on_client_disconnect(ch)
+            except Exception as ex:
+                res.add("C38", "C38.disconnect_callback_raised", type(ex).__name__, step,
+                        f"on_client_disconnect raised {ex!r} for the websocket {ch.id} (accepted={ch.accepted})")
+
         for step, op in enumerate(plan["ops"]):
             k = op[0]
             fp.append(k[:3])
@@ -426,7 +453,8 @@ class SimA(Simulator):
                 msg = EM.RegisterEngineMsg(computer_name=comp, uod_name=uod, uod_author_name="a", uod_author_email="a@b",
                                            uod_filename="f.py", location="loc", engine_version=_version(), secret="")
                 before = {k2: (v.computer_name, v.uod_name) for k2, v in w.aggregator._engine_data_map.items()}
-                connected_before = set(w.dispatcher._engine_id_channel_map)
+                # harness truth, not the dispatcher's own map: the ids of the engines whose websocket is open
+                connected_before = {ch.engine_id for e2, ch in w.live_channels.items() if e2 != e}
                 reply = await w.handlers.handle_RegisterEngineMsg(msg)
                 rec.log("register", e, reply.success, reply.engine_id)
                 if reply.success:
@@ -450,16 +478,30 @@ class SimA(Simulator):
                     res.probe("registration_refused")
             elif k == "connect":
                 e = op[1]
-                if eid(e) is None or eid(e) in w.dispatcher._engine_id_channel_map:
+                if eid(e) is None or e in w.live_channels:
                     continue
-                w.dispatcher._engine_id_channel_map[eid(e)] = FakeChannel(eid(e))
-                await w.handlers.handle_EngineConnected(eid(e))
-                w.engine_method_version.setdefault(eid(e), 0)
+                # the dispatcher's real connect path: on_client_connect -> delayed task -> id lookup over rpc -> accept, or
+                # close the socket of a second engine with a connected id; the endpoint reports every closed socket
+                w.n_channels += 1
+                ch = FakeChannel(eid(e), w.n_channels)
+                await w.dispatcher.on_client_connect(ch)
+                for _ in range(200):
+                    if not w.dispatcher._on_client_connect_tasks:
+                        break
+                    await asyncio.sleep(0.005)
+                if ch.closed:
+                    res.probe("websocket_rejected")
+                    await closed(ch, step)
+                else:
+                    ch.accepted = True
+                    w.live_channels[e] = ch
+                    w.engine_method_version.setdefault(eid(e), 0)
             elif k == "disconnect":
                 e = op[1]
-                ch = w.dispatcher._engine_id_channel_map.get(eid(e) or "")
+                ch = w.live_channels.pop(e, None)
                 if ch is not None:
-                    await w.dispatcher.on_client_disconnect(ch)
+                    ch.closed = True
+                    await closed(ch, step)
                     res.fault("engine_disconnect")
                     # the unit's engine data is dropped with its active users: a registration made before is no longer
                     # *required* to show (the statement only says when a user may be listed)
@@ -555,6 +597,19 @@ class SimA(Simulator):
                         res.add("C28", kind, "engine_data", step,
                                 f"engine reports tags for active run {rid} but the aggregator has "
                                 f"{'no run' if not ed.has_run() else ed.run_data.run_id}")
+            # C38 invariant after every step: an engine whose websocket is open and was accepted is connected under its id
+            # (otherwise a second installation with the same names can register and take the id over), and no two open,
+            # accepted websockets carry the same id
+            seen_ids: dict[str, str] = {}
+            for e2, ch in w.live_channels.items():
+                if not w.dispatcher.has_connected_engine_id(ch.engine_id):
+                    res.add("C38", "C38.connected_engine_forgotten", k, step,
+                            f"the websocket of {e2} (id {ch.engine_id!r}) is open and was accepted, but after {k} the dispatcher "
+                            f"no longer knows the id as connected")
+                if ch.engine_id in seen_ids:
+                    res.add("C38", "C38.two_live_engines_share_id", k, step,
+                            f"{seen_ids[ch.engine_id]} and {e2} are both connected under id {ch.engine_id!r}")
+                seen_ids[ch.engine_id] = e2
             res.state(k, len(w.aggregator._engine_data_map), len(w.dispatcher._engine_id_channel_map),
                       sum(1 for d in w.aggregator._engine_data_map.values() if d.has_run()))
         if held is not None:
